@@ -11,6 +11,7 @@ search(): the property's own predicate on the implementation: compile generated 
 import copy
 import itertools
 import os
+import random
 import logging
 import math
 import warnings
@@ -33,11 +34,13 @@ logging.disable(logging.WARNING)
 
 PROP = "C12"
 LEVEL = "proof"
-COQ_TARGETS = ["C12/Model.vo", "C12/Proofs.vo", "C12/Merge.vo"]
+COQ_TARGETS = ["C12/Model.vo", "C12/Proofs.vo", "C12/Merge.vo", "C12/TdmUtils.vo", "C12/TdmUtilsProofs.vo"]
 COQ_DIRS = ["C12"]
 PROPERTIES_FILE = "Properties/C12.v"
 ALLOWED_AXIOMS = set()
-RULE = ("a case is (device spec: 2..10 modes X layout or borealis/TDM layout, parameter ranges, modes limit; compiler; source "
+RULE = ("[tdm/utils: a padding job = (delays, pulses, per-loop beamsplitter pattern from bypass/cross/lead-full/lead-over/lead-short/lead-none/zeros-then-swap/"
+        "trailing-zeros/single-last, swept over job lengths below/at/above each delay) checked structurally, against the Coq plan and by space-unrolled simulation; "
+        "full_compile / borealis_gbs jobs compiled for the device; direct calls with non-default delays and ranges] a case is (device spec: 2..10 modes X layout or borealis/TDM layout, parameter ranges, modes limit; compiler; source "
         "program: squeezers per pair 0..3 in any order incl. zero / phased / daggered, interferometer as Interferometer / "
         "gate sequence / identity / mismatching halves, measurement split or partial; or time-domain gate arrays with "
         "and without user loop offsets) or an input of one of the modelled functions; non-trivial = compiles "
@@ -56,12 +59,13 @@ ASSUMPTIONS = [
     "Borealis phase pipeline is proved over exact rationals for every positive rational pi; binary64 rounding is covered only by the correspondence run",
 ]
 MANIFEST_TEXT = ("full theorems about the models: C12_validate_sound (+ unknown_parameter, invalid_value), C12_counts, C12_s2_merge (every multiplicity on "
-                 "every pair, every set enumeration, dagger signs; no extra hypothesis), C12_s2_merge_one_step, C12_borealis_range (both variants of the loop, "
-                 "congruence modulo pi; modulo 2 pi refuted: C12_borealis_pi_shift_refuted), C12_borealis_insert, C12_borealis_user_offsets_complete (repaired "
-                 "variant; refuted for the current one), C12_xunitary_shape_chain (conditional on the mesh implementing its unitary: C02/C17). Refutations "
-                 "C12_s2_merge_old_refuted_* concern the explicitly named pre-fix definitions only. Not proved (search only): that Interferometer._decompose is "
-                 "such a mesh and that GaussianUnitary's U is the net unitary (C11), Xcov/Takagi statistics preservation, networkx isomorphism / blackbird "
-                 "template matching")
+                 "every pair, every set enumeration, dagger signs), C12_s2_merge_one_step, C12_borealis_range (both variants of the loop, congruence modulo pi; "
+                 "modulo 2 pi refuted), C12_borealis_insert, C12_borealis_user_offsets_complete, C12_vacuum_padding (delay / prologue / epilogue / crop arithmetic "
+                 "for every number of loops, pattern and delay), C12_vacuum_padding_first_exit (the imposed delay is the first bin in which light can leave a loop, "
+                 "may-reach model), C12_xunitary_shape_chain (conditional on the mesh implementing its unitary: C02/C17). Refutations C12_*_old_refuted_* concern "
+                 "explicitly named pre-fix definitions only. Not proved (search only): that Interferometer._decompose is such a mesh and that GaussianUnitary's U is "
+                 "the net unitary (C11), Xcov/Takagi statistics preservation, squeezing / phase matching of full_compile, realistic-loss placement, networkx "
+                 "isomorphism / blackbird template matching")
 
 PI = math.pi
 X_COMPILERS = ["Xstrict", "Xunitary", "Xcov"]
@@ -406,7 +410,7 @@ def reset_compilers():
         compiler_db[c].reset_circuit()
 
 
-def compile_x(spec, dev_spec, compiler):
+def compile_x(spec, dev_spec, compiler, **kw):
     """-> (kind, compiled or message);  kind in ok | CircuitError | ValueError | raise:<Type>"""
     reset_compilers()
     try:
@@ -415,7 +419,7 @@ def compile_x(spec, dev_spec, compiler):
         return "build:" + type(e).__name__, str(e)
     try:
         dev = Device(dev_spec) if dev_spec is not None else None
-        compiled = prog.compile(device=dev, compiler=compiler, warn_connected=False)
+        compiled = prog.compile(device=dev, compiler=compiler, warn_connected=False, **kw)
         return "ok", (prog, compiled)
     except CircuitError as e:
         return "CircuitError", str(e)
@@ -499,10 +503,16 @@ def has_dagger(spec, names=None):
     return any(c[3] and (names is None or c[0] in names) for c in spec["cmds"])
 
 
-def check_x_case(ctx, tags, spec, dev_spec, compiler, K):
-    """evaluate the property on one (program, device, compiler); report counterexamples; return bucket"""
-    data = {"family": "x", "spec": spec, "device": dev_spec, "compiler": compiler, "K": K, "tags": tags}
-    kind, res = compile_x(spec, dev_spec, compiler)
+def check_x_case(ctx, tags, spec, dev_spec, compiler, K, opts=None):
+    """evaluate the property on one (program, device, compiler); report counterexamples; return bucket.
+    compiler=None: the device's default compiler is used by Program.compile (and named here independently)"""
+    opts = opts or {}
+    data = {"family": "x", "spec": spec, "device": dev_spec, "compiler": compiler, "K": K, "tags": tags, "opts": opts}
+    kind, res = compile_x(spec, dev_spec, compiler, **opts)
+    if compiler is None:
+        compiler = (dev_spec["compiler"] or ["Xunitary"])[0]
+        if kind == "ok" and res[1]._compile_info[1] != compiler:
+            ctx.counterexample("x:default-compiler", "Program.compile(device) used compiler %r, the device's default is %r" % (res[1]._compile_info[1], compiler), data)
     lc = compiler.lower()
     if kind in ("CircuitError", "ValueError") or kind.startswith("build:"):
         return kind
@@ -526,12 +536,19 @@ def check_x_case(ctx, tags, spec, dev_spec, compiler, K):
         bad = [] if compiler == "Xstrict" else [b for b in conform(ccmds, x_layout_cmds(N), None, n) if b[0] != "fixed"]
     else:
         bad = conform(ccmds, x_layout_cmds(N), gp, n)
+    if dev_spec is not None and dev_spec["modes"] is not None:
+        md = dev_spec["modes"]
+        nfock = sum(len(c[2]) for c in ccmds if c[0] == "MeasureFock")
+        if (isinstance(md, int) and n > md) or (isinstance(md, dict) and nfock > md.get("pnr_max", nfock)):
+            ctx.counterexample("x:modes-limit-ignored", "%s compiled a %d-mode program (%d Fock measurements) for a device limited to %r" % (compiler, n, nfock, md), data)
     seen = set()
     for k, msg in bad:
         if k == "dagger":
             sig = "x:dagger-survives-compile"
         elif compiler == "Xstrict" and gp is None and default != "Xstrict":
             sig = "xstrict:layout-unchecked"             # recorded: nothing checks the topology in this configuration
+        elif compiler == "Xstrict" and gp is None and k == "shared":
+            sig = "xstrict:shared-template-parameter-unchecked"   # recorded: the graph check does not know template names
         elif k == "fixed" and not (compiler == "Xstrict" and default == "Xstrict"):
             sig = "x:fixed-parameter-unchecked"          # recorded: Xstrict as the default compiler is the only checked case
         else:
@@ -640,8 +657,8 @@ def borealis_device_spec(loop_phases, tm=259, ranges=None):
     spec = {"target": "borealis", "layout": layout_text("template_borealis", "borealis", borealis_layout_cmds(), "\n".join(head)),
             "modes": {"temporal_max": 331, "concurrent": 44, "spatial": 1}, "compiler": ["borealis"], "gate_parameters": gp}
     cert = {"target": "borealis", "loop_phases": list(loop_phases), "schmidt_number": 1.333, "common_efficiency": 0.55,
-            "loop_efficiencies": [0.9, 0.8, 0.7], "squeezing_parameters_mean": {"low": [0.1], "high": [0.5], "medium": [0.3]},
-            "relative_channel_efficiencies": []}
+            "loop_efficiencies": [0.9, 0.8, 0.7], "squeezing_parameters_mean": {"low": 0.1, "medium": 0.3, "high": 0.5},
+            "relative_channel_efficiencies": [round(0.9 + 0.005 * i, 3) for i in range(16)]}
     return spec, cert
 
 
@@ -718,7 +735,7 @@ def gen_borealis_case(rng, T=None):
             if rng.random() < 0.5:
                 offsets[i] = phases[i] if rng.random() < 0.8 else round(rng.uniform(-1, 1), 3)
     mut = rng.choice(["first-op", "bs-modes", "bs-phase", "extra", "no-measure", "no-last-bs"]) if rng.random() < 0.15 else None
-    return {"args": args, "offsets": offsets, "loop_phases": phases, "mut": mut}
+    return {"args": args, "offsets": offsets, "loop_phases": phases, "mut": mut, "loss": rng.random() < 0.4}
 
 
 class _Capture:
@@ -760,6 +777,49 @@ def compile_borealis(case):
             return "raise:" + type(e).__name__, "%s: %s" % (type(e).__name__, e), cap.user_offsets
         finally:
             reset_compilers()
+
+
+def check_realistic_loss(ctx, case, plain, data):
+    """Program.compile(realistic_loss=True): same acceptance, same circuit once the loss channels are taken out, and the
+    loss channels are those of the device certificate (after the squeezer: common efficiency; on the mode entering loop
+    k: that loop's efficiency; before the detector: the relative channel efficiencies, repeated every 16 bins)"""
+    reset_compilers()
+    spec, cert = borealis_device_spec(case["loop_phases"])
+    try:
+        lossy = borealis_program(case).compile(device=Device(spec, cert), realistic_loss=True)
+    except Exception as e:
+        reset_compilers()
+        ctx.counterexample("borealis:realistic-loss:" + type(e).__name__, "the program compiles, but not with realistic_loss=True: %s: %s" % (type(e).__name__, e), data)
+        return
+    reset_compilers()
+    lc, pc = tdm_cmds(lossy), tdm_cmds(plain)
+    T = len(case["args"][0])
+    if [c for c in lc if c[0] != "LossChannel"] != pc:
+        ctx.counterexample("borealis:realistic-loss:circuit-changed", "apart from the loss channels the circuit differs from the one compiled without loss", data)
+        return
+    want = []
+    loop = 0
+    rel = (cert["relative_channel_efficiencies"] * (T // 16 + 1))[:T]
+    for c in pc:
+        if c[0] == "MeasureFock":
+            want.append(["LossChannel", [[float(x) for x in rel]], list(c[2])])
+        want.append(None)
+        if c[0] == "Sgate":
+            want.append(["LossChannel", [cert["common_efficiency"]], list(c[2])])
+        if c[0] == "BSgate":
+            want.append(["LossChannel", [cert["loop_efficiencies"][loop]], [c[2][1]]])
+            loop += 1
+    got = [None if c[0] != "LossChannel" else [c[0], c[1], list(c[2])] for c in lc]
+    def close(a, b):
+        if a is None or b is None:
+            return a is b
+        pa, pb = a[1][0], b[1][0]
+        pa = pa if isinstance(pa, list) else [pa]
+        pb = pb if isinstance(pb, list) else [pb]
+        return a[2] == b[2] and len(pa) == len(pb) and all(abs(x - y) < 1e-12 for x, y in zip(pa, pb))
+    if len(got) != len(want) or not all(close(a, b) for a, b in zip(got, want)):
+        ctx.counterexample("borealis:realistic-loss:wrong-channels", "loss channels %r; the certificate asks for %r"
+                           % ([g for g in got if g], [[w[0], [p if not isinstance(p, list) else p[:3] for p in w[1]], w[2]] for w in want if w]), data)
 
 
 def tdm_cmds(prog):
@@ -895,6 +955,8 @@ def check_borealis_case(ctx, case, K):
             elif int(round(k)) % 2 != 0:
                 shifted[loop] += 1
                 odd[loop].append(j)
+    if case.get("loss"):
+        check_realistic_loss(ctx, case, compiled, data)
     # same experiment (a source that stops before its measurement is not a complete experiment: nothing to compare)
     if case.get("mut") in ("no-measure", "no-last-bs"):
         return "ok", compensated
@@ -999,6 +1061,724 @@ def check_tdm_case(ctx, case):
     return "ok"
 
 
+
+# =====================================================================================================
+# tdm/utils.py : vacuum_padding, make_squeezing_compatible, make_phases_compatible, full_compile, borealis_gbs,
+#                to_args_list / to_args_dict, get_mode_indices
+
+from strawberryfields.tdm import utils as tdmu  # noqa: E402
+
+LOOP_PATTERNS = ["bypass", "cross", "lead-full", "lead-over", "lead-short", "lead-none", "zeros-then-swap",
+                 "trailing-zeros", "single-last"]
+SQ_ALLOWED = {"low": 0.1, "medium": 0.3, "high": 0.5}
+
+
+def loop_pattern(rng, kind, L, delay):
+    """a loop's BSgate list of length L: every state pattern the padding arithmetic distinguishes"""
+    gen = lambda: round(rng.uniform(0.3, 1.2), 3)
+    if kind == "bypass":
+        return [PI / 2] * L
+    if kind == "cross":
+        return [0.0] * L
+    if kind == "zeros-then-swap":
+        k = rng.randint(0, min(L, delay))
+        return [0.0] * k + [PI / 2] * (L - k)
+    if kind == "single-last":
+        return [0.0] * (L - 1) + [gen()]
+    k = {"lead-full": delay, "lead-over": delay + rng.randint(1, 2), "lead-short": rng.randint(1, max(1, delay - 1)) if delay > 1 else 0,
+         "lead-none": 0, "trailing-zeros": delay}[kind]
+    a = [0.0] * min(k, L) + [gen() for _ in range(max(0, L - k))]
+    if kind == "trailing-zeros" and L - k >= 2:
+        for j in range(rng.randint(1, L - k - 1)):
+            a[L - 1 - j] = 0.0
+    return a
+
+
+def lead_zeros(a):
+    for i, v in enumerate(a):
+        if v != 0:
+            return i
+    return len(a)
+
+
+def padding_oracle(alphas, delays):
+    """independent statement of the arithmetic: a loop delays the first light by min(leading zeros, delay), and by its
+    full delay when it is in the cross state for the whole job"""
+    pro, arr = [], 0
+    for a, D in zip(alphas, delays):
+        pro.append(arr)
+        k = lead_zeros(a)
+        arr += D if k == len(a) else min(k, D)
+    return pro, [arr - x for x in pro], arr
+
+
+def tdm_loops_program(delays, args_list):
+    n, N = get_mode_indices(delays)
+    n = [int(x) for x in n]
+    prog = TDMProgram(int(N))
+    with prog.context(*args_list) as (p, q):
+        ops.Sgate(p[0]) | q[n[0]]
+        for i in range(len(delays)):
+            ops.Rgate(p[2 * i + 1]) | q[n[i]]
+            ops.BSgate(p[2 * i + 2], PI / 2) | (q[n[i + 1]], q[n[i]])
+        ops.MeasureFock() | q[0]
+    return prog
+
+
+def tdm_mean_photons(prog):
+    """space-unrolled gaussian simulation: (mean photon number per detected time bin, total mean photon number)"""
+    from thewalrus.quantum import photon_number_mean_vector
+    p = copy.deepcopy(prog)
+    p.space_unroll()
+    meas = []
+    q = sf.Program(p.num_subsystems)
+    with q.context as r:
+        for c in p.circuit:
+            if c.op.__class__.__name__.startswith("Measure"):
+                meas += [x.ind for x in c.reg]
+            else:
+                c.op | tuple(r[x.ind] for x in c.reg)
+    st = sf.Engine("gaussian").run(q).state
+    nvec = np.array(photon_number_mean_vector(np.array(st.means()), np.array(st.cov())))
+    return nvec[meas], float(nvec.sum())
+
+
+def physical_padding_check(ctx, sig_prefix, prog, args_list, crop, L, flushable, all_squeezed, data):
+    """the property's own predicate on a padded time-domain job: the first `crop` detected bins are vacuum, bin `crop`
+    is not, `L` bins remain, and (if every loop is flushed by its padding) no light is left in the loops"""
+    T = len(args_list[0])
+    nbins, total = tdm_mean_photons(prog)
+    produced = float(np.sum(np.sinh(np.array(args_list[0], dtype=float)) ** 2))
+    bad = []
+    if len(nbins) != T:
+        bad.append(("bins", "%d detected bins for %d time bins" % (len(nbins), T)))
+    if T - crop != L:
+        bad.append(("length", "%d time bins are left after cropping %d, the job has %d pulses" % (T - crop, crop, L)))
+    if crop > 0 and crop <= len(nbins) and float(np.max(np.abs(nbins[:crop]))) > 1e-9:
+        bad.append(("crop-not-vacuum", "one of the first crop=%d detected bins is not vacuum (max <n> = %.3g)" % (crop, float(np.max(nbins[:crop])))))
+    if all_squeezed and (crop >= len(nbins) or nbins[crop] < 1e-7):
+        bad.append(("first-pulse-late", "detected bin crop=%d is vacuum: the first light arrives later than reported" % crop))
+    if flushable and abs(total - float(np.sum(nbins))) > 1e-7:
+        bad.append(("light-left-in-loops", "%.4g of %.4g photons are still inside the delay loops when the job ends"
+                    % (total - float(np.sum(nbins)), produced)))
+    if abs(total - produced) > 1e-7:
+        bad.append(("photons", "total photon number %.6g differs from what the squeezers produce %.6g" % (total, produced)))
+    for k, msg in bad[:2]:
+        ctx.counterexample("%s:%s" % (sig_prefix, k), "padded time-domain job is not the source experiment: " + msg, data)
+    return not bad
+
+
+def is_flushable(alphas, delays):
+    return all(all(v == PI / 2 for v in a) or lead_zeros(a) >= min(D, len(a)) and (lead_zeros(a) >= D or lead_zeros(a) == len(a))
+               for a, D in zip(alphas, delays))
+
+
+def gen_padding_case(rng, delays=None, L=None, kinds=None):
+    delays = delays or rng.choice([[1, 2, 3], [2, 3, 5], [1, 3, 4], [1, 6, 36], [2, 1, 4]])
+    L = L or rng.choice(sorted({1, 2, 3} | {max(1, d + e) for d in delays for e in (-1, 0, 1)}))
+    kinds = kinds or [rng.choice(LOOP_PATTERNS) for _ in delays]
+    loops = {}
+    for i, (k, D) in enumerate(zip(kinds, delays)):
+        loops[i] = {"Rgate": [round(rng.uniform(-1.2, 1.2), 3) for _ in range(L)], "BSgate": loop_pattern(rng, k, L, D)}
+    sq = [round(rng.uniform(0.3, 0.6), 3) for _ in range(L)]
+    if rng.random() < 0.15 and L >= 3:
+        sq[-1] = 0.0
+    return {"delays": delays, "L": L, "kinds": kinds, "Sgate": sq, "loops": loops}
+
+
+def gate_args_of(case):
+    return {"Sgate": list(case["Sgate"]), "loops": {int(k): {"Rgate": list(v["Rgate"]), "BSgate": list(v["BSgate"])} for k, v in case["loops"].items()}}
+
+
+def check_padding_case(ctx, case, simulate=True):
+    """vacuum_padding on one job: structure against the independent arithmetic, then the physical predicate"""
+    data = {"family": "padding", "case": case}
+    delays, L = case["delays"], case["L"]
+    ga = gate_args_of(case)
+    before = copy.deepcopy(ga)
+    try:
+        out = tdmu.vacuum_padding(ga, delays=list(delays))
+    except Exception as e:
+        ctx.counterexample("vacuum_padding:raises:" + type(e).__name__, "vacuum_padding raised %s: %s" % (type(e).__name__, e), data)
+        return "raise"
+    if ga != before:
+        ctx.counterexample("vacuum_padding:mutates-input", "vacuum_padding changed the gate arguments it was given", data)
+    alphas = [case["loops"][i]["BSgate"] if i in case["loops"] else case["loops"][str(i)]["BSgate"] for i in range(len(delays))]
+    pro, epi, crop = padding_oracle(alphas, delays)
+    struct_ok = out.get("crop") == crop and list(out["Sgate"]) == [0] * pro[0] + before["Sgate"] + [0] * epi[0]
+    for i in range(len(delays)):
+        for g in ("Rgate", "BSgate"):
+            struct_ok = struct_ok and list(out["loops"][i][g]) == [0] * pro[i] + before["loops"][i][g] + [0] * epi[i]
+    lens = {len(out["Sgate"])} | {len(out["loops"][i][g]) for i in range(len(delays)) for g in ("Rgate", "BSgate")}
+    if len(lens) != 1:
+        ctx.counterexample("vacuum_padding:ragged", "padded gate lists have different lengths %r" % sorted(lens), data)
+        return "ragged"
+    ok = True
+    if simulate:
+        args_list = [out["Sgate"]]
+        for i in range(len(delays)):
+            args_list += [out["loops"][i]["Rgate"], out["loops"][i]["BSgate"]]
+        try:
+            prog = tdm_loops_program(delays, args_list)
+            # "bin `crop` carries light" presupposes an uninterrupted stream of light into every loop: guaranteed when
+            # every loop is bypassed, in the cross state, or filled for `delay` bins first (otherwise crop may be early)
+            fl = is_flushable(alphas, delays)
+            ok = physical_padding_check(ctx, "vacuum_padding", prog, args_list, int(out["crop"]), L, fl,
+                                        fl and all(v != 0 for v in case["Sgate"]), data)
+        except Exception as e:
+            ctx.counterexample("vacuum_padding:simulate:" + type(e).__name__, "cannot simulate the padded job: %s" % e, data)
+            ok = False
+    if not struct_ok and ok:
+        ctx.disagreement("vacuum_padding:structure", "padded lists / crop=%r differ from prologue %r, epilogue %r, crop %r" % (out.get("crop"), pro, epi, crop), data)
+    return "ok" if (ok and struct_ok) else "bad"
+
+
+def corr_padding(ctx, cases, tag):
+    """Coq model padding_plan vs vacuum_padding (prologue / epilogue lengths recovered from the padded lists)"""
+    items, impl = [], []
+    for case in cases:
+        delays = case["delays"]
+        alphas = [case["loops"][i]["BSgate"] for i in range(len(delays))]
+        items.append("padding_plan %s" % coq.coq_list(["(%s, %d)" % (coq.coq_list([coq.coq_bool(v == 0) for v in a]), D) for a, D in zip(alphas, delays)]))
+        try:
+            out = tdmu.vacuum_padding(gate_args_of(case), delays=list(delays))
+            T = len(out["Sgate"])
+            pros, epis = [], []
+            for i in range(len(delays)):
+                # the prologue of loop i is recovered from the Rgate list (random non-zero entries)
+                r = list(out["loops"][i]["Rgate"])
+                src = case["loops"][i]["Rgate"]
+                k = next((j for j in range(len(r) - len(src) + 1) if r[j:j + len(src)] == src and all(x == 0 for x in r[:j])), None)
+                pros.append(k)
+                epis.append(None if k is None else len(r) - len(src) - k)
+            impl.append([pros, epis, out["crop"]])
+        except Exception as e:
+            impl.append(["raise", type(e).__name__])
+    text = ("From Coq Require Import List Arith Bool.\nImport ListNotations.\nFrom SFV Require Import C12.TdmUtils.\n"
+            "Eval vm_compute in %s.\n" % coq.coq_list(items))
+    ok, vals, raw = coq_eval_tmp(ctx, "corr_padding_%s_%d" % (tag, os.getpid()), text)
+    if not ok:
+        ctx.obligation("correspondence:vacuum_padding:" + tag, False, raw)
+        return
+    for case, iv, mv in zip(cases, impl, vals[0]):
+        ctx.traces += 1
+        m = [list(mv[0]), list(mv[1]), mv[2]]
+        ctx.case({"model": "padding", "delays": case["delays"], "L": case["L"], "kinds": case["kinds"]}, nontrivial=any(k in ("cross", "lead-short", "zeros-then-swap", "single-last") for k in case["kinds"]),
+                 bucket="corr:padding")
+        if m != iv:
+            before = len(ctx.issues)
+            check_padding_case(ctx, case, simulate=True)     # the property's own predicate first
+            if not any(i.kind == "counterexample" for i in ctx.issues[before:]):
+                ctx.disagreement("corr:vacuum_padding", "model %r vs implementation %r" % (m, iv), {"family": "padding", "case": case})
+
+
+# ---- make_squeezing_compatible / make_phases_compatible / full_compile / borealis_gbs -------------------------
+
+def utils_device(loop_phases, temporal_max=331):
+    spec, cert = borealis_device_spec(loop_phases)
+    spec = dict(spec, modes=dict(spec["modes"], temporal_max=temporal_max))
+    spec["gate_parameters"] = dict(spec["gate_parameters"], s=[0.0] + sorted(SQ_ALLOWED.values()))
+    cert = dict(cert, squeezing_parameters_mean=dict(SQ_ALLOWED), relative_channel_efficiencies=[1.0] * 16)
+    return Device(spec, cert)
+
+
+def squeezing_oracle(padded_s, prog_length, crop, allowed):
+    """the pulses (everything up to the trailing zeros, at most prog_length - crop) get the hardware value closest to their
+    median, everything behind them is 0 / kept"""
+    vals = [float(v) for v in padded_s]
+    comp = len(vals)
+    while comp > 0 and vals[comp - 1] == 0:
+        comp -= 1
+    if comp > prog_length - crop:
+        comp = prog_length - crop
+        vals[comp:] = [0.0] * (len(vals) - comp)
+    if comp == 0:
+        return vals
+    med = float(np.median(np.array(vals[:comp])))
+    cands = [float(a) for a in allowed.values()] + [0.0]
+    best = min(cands, key=lambda a: abs(a - med))
+    return [best] * comp + vals[comp:]
+
+
+def phases_oracle(loops_r, loop_phases, delays, lo=-PI / 2, hi=PI / 2):
+    """per loop: the set of indices whose compensated phase falls outside [lo, hi] (loop 0 is never touched)"""
+    T = len(loops_r[0])
+    out = []
+    prev = [0.0] * T
+    for l, r in enumerate(loops_r):
+        corr = [loop_phases[l] * int(j / delays[l]) for j in range(T)]
+        idx = []
+        if l != 0:
+            for j in range(T):
+                x = (r[j] + corr[j] - prev[j]) % (2 * PI)
+                if x > PI:
+                    x -= 2 * PI
+                if x < lo or x > hi:
+                    idx.append(j)
+        out.append(idx)
+        prev = corr
+    return out
+
+
+def gen_compile_case(rng):
+    L = rng.choice([1, 2, 5, 6, 7, 9, 12, 20, 35, 36, 37])
+    kinds = [rng.choice(["bypass", "cross", "lead-full", "lead-over", "cross", "lead-full"]) for _ in range(3)]
+    loops = {}
+    for i, (k, D) in enumerate(zip(kinds, BOREALIS_DELAYS)):
+        a = [min(x, PI / 2) for x in loop_pattern(rng, k, L, D)]
+        wide = rng.random() < 0.6
+        loops[i] = {"Rgate": [round(rng.uniform(-PI, PI) if wide else rng.uniform(-0.3, 0.3), 3) for _ in range(L)], "BSgate": a}
+    r = rng.random()
+    if r < 0.3:
+        sq = rng.choice(["low", "medium", "high", "zero"])
+    else:
+        base = rng.choice([0.1, 0.3, 0.5, 0.28, 0.42, 0.2])
+        sq = [round(base + rng.uniform(-0.02, 0.02), 4) if rng.random() < 0.7 else base for _ in range(L)]
+        if rng.random() < 0.3 and L >= 3:       # skewed: median and mean pick different hardware values
+            sq = [0.1] * (L // 2 + 1) + [0.5] * (L - L // 2 - 1)
+            rng.shuffle(sq)
+        if rng.random() < 0.2 and L >= 3:
+            sq[-1] = 0
+    phases = [rng.choice([0.0, 0.11, -0.07, 0.23, 3.0, round(rng.uniform(-PI, PI), 3)]) for _ in range(3)]
+    return {"L": L, "kinds": kinds, "Sgate": sq, "loops": loops, "loop_phases": phases,
+            "temporal_max": rng.choice([331, 331, 331, L + 20, "T", "T-1"])}
+
+
+def check_compile_case(ctx, case, simulate=True):
+    """full_compile = padding + squeezing + phases + list conversion, then Program.compile for the device"""
+    data = {"family": "fullcompile", "case": case}
+    L = case["L"]
+    ga = gate_args_of(case) if isinstance(case["Sgate"], list) else dict(gate_args_of(dict(case, Sgate=[])), Sgate=case["Sgate"])
+    dev = utils_device(case["loop_phases"], case["temporal_max"])
+    alphas = [ga["loops"][i]["BSgate"] for i in range(3)]
+    pro, epi, crop = padding_oracle(alphas, BOREALIS_DELAYS)
+    T = L + crop
+    if isinstance(case["temporal_max"], str):
+        case = dict(case, temporal_max=T if case["temporal_max"] == "T" else T - 1)
+        data = {"family": "fullcompile", "case": case}
+        dev = utils_device(case["loop_phases"], case["temporal_max"])
+    try:
+        d = tdmu.full_compile(copy.deepcopy(ga), dev, return_list=False)
+        lst = tdmu.full_compile(copy.deepcopy(ga), dev, return_list=True)
+    except ValueError as e:
+        if T > case["temporal_max"]:
+            return "ValueError"
+        ctx.counterexample("full_compile:raises:ValueError", "full_compile raised %s for a job of %d time bins (device maximum %d)" % (e, T, case["temporal_max"]), data)
+        return "raise"
+    except Exception as e:
+        ctx.counterexample("full_compile:raises:" + type(e).__name__, "full_compile raised %s: %s" % (type(e).__name__, e), data)
+        return "raise"
+    if T > case["temporal_max"]:
+        ctx.counterexample("full_compile:temporal-max-ignored", "full_compile accepted %d time bins for a device with temporal_max=%d" % (T, case["temporal_max"]), data)
+    bad = []
+    want_list = [d["Sgate"]] + [d["loops"][i][g] for i in range(3) for g in ("Rgate", "BSgate")]
+    if [list(map(float, x)) for x in lst] != [list(map(float, x)) for x in want_list]:
+        bad.append(("list-order", "full_compile(return_list=True) is not [Sgate, Rgate0, BSgate0, Rgate1, ...] of the dictionary form"))
+    if d.get("crop") != crop or any(len(x) != T for x in lst):
+        bad.append(("padding", "crop=%r, lengths %r; expected crop %d and %d time bins" % (d.get("crop"), [len(x) for x in lst], crop, T)))
+    else:
+        # squeezing: hardware values only, the user's pulses in the non-cropped bins
+        s = [float(x) for x in lst[0]]
+        allowed = sorted(set(SQ_ALLOWED.values()) | {0.0})
+        if any(min(abs(x - a) for a in allowed) > 1e-12 for x in s):
+            bad.append(("squeezing-not-allowed", "compiled squeezing %r contains values the device does not offer %r" % (sorted(set(s)), allowed)))
+        if isinstance(case["Sgate"], str):
+            want_s = [SQ_ALLOWED.get(case["Sgate"], 0)] * L + [0] * crop
+        else:
+            want_s = squeezing_oracle(list(case["Sgate"]) + [0] * crop, T, crop, SQ_ALLOWED)
+        if [float(x) for x in want_s] != s:
+            bad.append(("squeezing", "compiled squeezing %r, expected %r (closest hardware value to the median of the pulses, zeros kept)" % (s[:8], want_s[:8])))
+        # beamsplitters: only padded
+        for i in range(3):
+            if [float(x) for x in lst[2 + 2 * i]] != [0.0] * pro[i] + [float(x) for x in alphas[i]] + [0.0] * epi[i]:
+                bad.append(("bs-changed", "loop %d beamsplitter list is not the padded source list" % i))
+        # phases: padded source, moved by pi exactly where the compensated value is out of range (loops 1, 2)
+        padded_r = [[0.0] * pro[i] + [float(x) for x in ga["loops"][i]["Rgate"]] + [0.0] * epi[i] for i in range(3)]
+        need = phases_oracle(padded_r, case["loop_phases"], BOREALIS_DELAYS)
+        for i in range(3):
+            got = [float(x) for x in lst[1 + 2 * i]]
+            for j in range(T):
+                dlt = (got[j] - padded_r[i][j]) % (2 * PI)
+                moved = abs(dlt - PI) < 1e-9
+                same = min(dlt, 2 * PI - dlt) < 1e-9
+                if not (moved or same) or (i == 0 and not same and abs(got[j] - padded_r[i][j]) > 1e-12):
+                    bad.append(("phase-changed", "loop %d bin %d: phase %r became %r" % (i, j, padded_r[i][j], got[j])))
+                    break
+                if i != 0 and moved != (j in need[i]) and not near_range_edge(padded_r, case["loop_phases"], i, j):
+                    bad.append(("phase-shift-wrong", "loop %d bin %d: %s by pi although the compensated phase is %s the modulator range"
+                                % (i, j, "moved" if moved else "not moved", "outside" if j in need[i] else "inside")))
+                    break
+    for k, msg in bad[:3]:
+        ctx.counterexample("full_compile:" + k, "full_compile result is not the hardware version of the source job: " + msg, data)
+    if bad:
+        return "bad"
+    # compile for the device: must validate, must need no further range correction in loops 1 and 2, same statistics
+    reset_compilers()
+    try:
+        prog = tdm_loops_program(BOREALIS_DELAYS, [list(map(float, x)) for x in lst])
+        compiled = prog.compile(device=dev)
+    except Exception as e:
+        reset_compilers()
+        ctx.counterexample("full_compile:not-compilable:" + type(e).__name__, "the output of full_compile does not compile for the device: %s" % e, data)
+        return "bad"
+    reset_compilers()
+    pre = expected_pre({"args": [list(map(float, x)) for x in lst], "offsets": [None] * 3, "loop_phases": case["loop_phases"]}, True)
+    for loop in (1, 2):
+        new = [float(x) for x in compiled.tdm_params[1 + 2 * loop]]
+        for j, (want, b) in enumerate(zip(pre[loop], new)):
+            k = (b - want) / PI
+            if abs(k - round(k)) > 1e-6 or (int(round(k)) % 2 != 0 and not near_range_edge([list(map(float, lst[1])), list(map(float, lst[3])), list(map(float, lst[5]))], case["loop_phases"], loop, j)):
+                ctx.counterexample("full_compile:phases-not-compatible", "after full_compile the compiler still had to move loop %d bin %d by pi (%r -> %r)"
+                                   % (loop, j, want, b), data)
+                return "bad"
+    if simulate:
+        try:
+            ok = physical_padding_check(ctx, "full_compile", compiled_numeric(compiled), [list(map(float, x)) for x in lst], crop, L,
+                                        True, all(float(x) != 0 for x in lst[0][:L]), data)
+        except Exception as e:
+            ctx.counterexample("full_compile:simulate:" + type(e).__name__, "cannot simulate the compiled job: %s" % e, data)
+            ok = False
+        return "ok" if ok else "bad"
+    return "ok"
+
+
+def near_range_edge(rs, loop_phases, loop, j):
+    T = len(rs[0])
+    corr = loop_phases[loop] * int(j / BOREALIS_DELAYS[loop])
+    prev = loop_phases[loop - 1] * int(j / BOREALIS_DELAYS[loop - 1]) if loop > 0 else 0.0
+    x = (rs[loop][j] + corr - prev) % (2 * PI)
+    return min(abs(x - PI / 2), abs(x - 3 * PI / 2), abs(x - PI), abs(x), abs(x - 2 * PI)) < 1e-9
+
+
+def compiled_numeric(compiled):
+    """the compiled TDM program rebuilt with numeric loop offsets (its own circuit, parameters from tdm_params)"""
+    params = [list(np.array(a, dtype=float)) for a in compiled.tdm_params]
+    new = TDMProgram(compiled.N)
+    with new.context(*params) as (p, q):
+        for cmd in compiled.circuit:
+            args = []
+            for a in cmd.op.p:
+                s_ = str(a)
+                if s_.startswith("{") or (s_.startswith("p") and s_[1:].isdigit()):
+                    args.append(p[int(s_.strip("{}")[1:])])
+                else:
+                    args.append(float(a))
+            type(cmd.op)(*args) | tuple(q[r.ind] for r in cmd.reg)
+    return new
+
+
+def check_gbs_case(ctx, case):
+    """borealis_gbs: a ready-made job; same predicates"""
+    data = {"family": "gbs", "case": case}
+    dev = utils_device(case["loop_phases"])
+    np.random.seed(case["seed"])
+    try:
+        lst = tdmu.borealis_gbs(dev, modes=case["modes"], squeezing=case["squeezing"], open_loops=list(case["open_loops"]))
+        np.random.seed(case["seed"])
+        d = tdmu.borealis_gbs(dev, modes=case["modes"], squeezing=case["squeezing"], open_loops=list(case["open_loops"]), return_list=False)
+    except Exception as e:
+        ctx.counterexample("borealis_gbs:raises:" + type(e).__name__, "borealis_gbs raised %s: %s" % (type(e).__name__, e), data)
+        return "raise"
+    crop = sum(D for D, o in zip(BOREALIS_DELAYS, case["open_loops"]) if o)
+    T = case["modes"] + crop
+    bad = []
+    if d.get("crop") != crop or any(len(x) != T for x in lst):
+        bad.append(("padding", "crop=%r lengths %r; expected crop %d (sum of the delays of the open loops) and %d time bins" % (d.get("crop"), [len(x) for x in lst], crop, T)))
+    else:
+        s = [float(x) for x in lst[0]]
+        if s != [float(SQ_ALLOWED[case["squeezing"]])] * case["modes"] + [0.0] * crop:
+            bad.append(("squeezing", "squeezing list %r" % s[:6]))
+        for i, o in enumerate(case["open_loops"]):
+            a = [float(x) for x in lst[2 + 2 * i]]
+            body = a[sum(D for D, oo in zip(BOREALIS_DELAYS[:i], case["open_loops"][:i]) if oo):][:case["modes"]]
+            if not o and any(abs(x - PI / 2) > 1e-12 for x in body):
+                bad.append(("closed-loop", "loop %d is closed but its beamsplitter is not pi/2 throughout" % i))
+            if o and any(x != 0 for x in body[:BOREALIS_DELAYS[i]]):
+                bad.append(("open-loop-fill", "loop %d is open but its first %d beamsplitter settings are not 0" % (i, BOREALIS_DELAYS[i])))
+            if any(x < -1e-12 or x > PI / 2 + 1e-12 for x in a):
+                bad.append(("bs-range", "loop %d beamsplitter angle outside [0, pi/2]" % i))
+    for k, msg in bad[:2]:
+        ctx.counterexample("borealis_gbs:" + k, "borealis_gbs result: " + msg, data)
+    if bad:
+        return "bad"
+    reset_compilers()
+    try:
+        prog = tdm_loops_program(BOREALIS_DELAYS, [list(map(float, x)) for x in lst])
+        compiled = prog.compile(device=dev)
+        ok = physical_padding_check(ctx, "borealis_gbs", compiled_numeric(compiled), [list(map(float, x)) for x in lst], crop, case["modes"], True, True, data)
+    except Exception as e:
+        ctx.counterexample("borealis_gbs:not-compilable:" + type(e).__name__, "the output of borealis_gbs does not compile / simulate: %s" % e, data)
+        ok = False
+    reset_compilers()
+    return "ok" if ok else "bad"
+
+
+def check_small_utils(ctx, rng):
+    """get_mode_indices, to_args_list / to_args_dict, loop_phase_from_device"""
+    for _ in range(12):
+        delays = [rng.randint(1, 9) for _ in range(rng.randint(1, 4))]
+        data = {"family": "utils", "fn": "get_mode_indices", "delays": delays}
+        n, N = tdmu.get_mode_indices(list(delays))
+        n = [int(x) for x in n]
+        ok = int(N) == sum(delays) + 1 and len(n) == len(delays) + 1 and n[0] == N - 1 and n[-1] == 0 and all(n[i] - n[i + 1] == delays[i] for i in range(len(delays)))
+        ctx.case({"fn": "get_mode_indices", "delays": delays}, bucket="utils:get_mode_indices")
+        if not ok:
+            ctx.counterexample("get_mode_indices:wrong", "get_mode_indices(%r) = (%r, %r): consecutive loop modes must be `delay` apart, from N-1 down to 0" % (delays, n, N), data)
+    dev = utils_device([0.1, 0.2, 0.3])
+    if tdmu.loop_phase_from_device(dev) != [0.1, 0.2, 0.3]:
+        ctx.counterexample("loop_phase_from_device:wrong", "loop_phase_from_device does not return the certificate's loop phases", {"family": "utils", "fn": "loop_phase_from_device"})
+    for _ in range(6):
+        T = rng.randint(1, 5)
+        mk = lambda: [round(rng.uniform(0, 1), 3) for _ in range(T)]
+        d = {"Sgate": mk(), "loops": {i: {"Rgate": mk(), "BSgate": mk()} for i in range(3)}}
+        data = {"family": "utils", "fn": "to_args", "dict": d}
+        ctx.case({"fn": "to_args", "T": T}, bucket="utils:to_args")
+        try:
+            withcrop = dict(copy.deepcopy(d), crop=7)
+            l1 = tdmu.to_args_list(copy.deepcopy(withcrop), dev)
+            l2 = tdmu.to_args_list(copy.deepcopy(withcrop))
+            want = [d["Sgate"]] + [d["loops"][i][g] for i in range(3) for g in ("Rgate", "BSgate")]
+            back = tdmu.to_args_dict(copy.deepcopy(l1), dev)
+            if l1 != want or l2 != want:
+                ctx.counterexample("to_args_list:order", "to_args_list does not return [Sgate, Rgate0, BSgate0, ...] (with device: %s, without: %s)" % (l1 == want, l2 == want), data)
+            elif back != d:
+                ctx.counterexample("to_args_dict:roundtrip", "to_args_dict(to_args_list(d)) != d", data)
+        except Exception as e:
+            ctx.counterexample("to_args:raises:" + type(e).__name__, "to_args_list / to_args_dict raised %s" % e, data)
+
+
+
+def check_create_program(ctx, dev_spec, params):
+    """Device.create_program: the layout with the given values, every other template parameter at the first allowed
+    value; the program it returns is compiled with the device's default compiler"""
+    data = {"family": "create", "device": dev_spec, "params": params}
+    reset_compilers()
+    N = dev_spec["modes"] // 2 if isinstance(dev_spec["modes"], int) else None
+    lay = x_layout_cmds(N)
+    gp = dev_spec["gate_parameters"]
+    try:
+        prog = Device(dev_spec).create_program(**params)
+    except CircuitError:
+        reset_compilers()
+        return "CircuitError"           # e.g. different final phases on the two halves are not admissible for Xunitary
+    except ValueError:
+        reset_compilers()
+        ok = all(k in gp and in_ranges(v, gp[k]) for k, v in params.items())
+        if ok:
+            ctx.counterexample("create_program:rejects-valid", "Device.create_program rejected parameters that are all inside the allowed ranges", data)
+        return "ValueError"
+    except Exception as e:
+        reset_compilers()
+        ctx.counterexample("create_program:raises:" + type(e).__name__, "Device.create_program raised %s: %s" % (type(e).__name__, e), data)
+        return "raise"
+    reset_compilers()
+    if not all(k in gp and in_ranges(v, gp[k]) for k, v in params.items()):
+        ctx.counterexample("create_program:accepts-invalid", "Device.create_program accepted a parameter outside its allowed ranges / unknown to the device", data)
+        return "bad"
+
+    def val(t):
+        if not isinstance(t, str):
+            return t
+        if t in params:
+            return params[t]
+        a = gp[t][0]
+        return float(a[0]) if isinstance(a, (list, tuple)) else float(a)
+    want = {"n": 2 * N, "cmds": [[nm, [val(t) for t in ps], list(ms), False] for nm, ps, ms in lay]}
+    ccmds = cmds_of(prog.circuit)
+    bad = [b for b in conform(ccmds, lay, None, 2 * N)]
+    for k, msg in bad[:2]:
+        ctx.counterexample("create_program:layout:" + k, "Device.create_program returned a circuit that does not conform to the layout: " + msg, dict(data, observed=ccmds))
+    try:
+        s_want = gaussian_state(2 * N, build_program(want).circuit)
+        s_got = gaussian_state(2 * N, prog.circuit)
+        if not (states_equal(s_want, s_got) or same_photon_stats(s_want, s_got, 2)[0]):
+            ctx.counterexample("create_program:wrong-values", "Device.create_program does not prepare the state of the layout with the given values "
+                               "(missing parameters at their first allowed value)", dict(data, observed=ccmds))
+            return "bad"
+    except Exception as e:
+        ctx.counterexample("create_program:simulate:" + type(e).__name__, "cannot simulate: %s" % e, data)
+        return "bad"
+    return "ok" if not bad else "bad"
+
+
+def check_direct_utils(ctx, rng):
+    """make_phases_compatible / make_squeezing_compatible / full_compile with non-default delays and phase ranges,
+    Device.validate_target, move_vac_modes"""
+    # make_phases_compatible, custom delays and range
+    for _ in range(8):
+        delays = rng.choice([[1, 6, 36], [1, 2, 3], [2, 3, 5]])
+        lo, hi = rng.choice([(-PI / 2, PI / 2), (-1.0, 1.0), (-0.5, 2.0)])
+        T = rng.randint(1, 12)
+        phases = [round(rng.uniform(-2, 2), 3) for _ in range(3)]
+        ga = {"Sgate": [0.3] * T, "loops": {i: {"Rgate": [round(rng.uniform(-PI, PI), 3) for _ in range(T)], "BSgate": [0.5] * T} for i in range(3)}}
+        data = {"family": "directutils", "fn": "make_phases_compatible", "delays": delays, "range": [lo, hi], "gate_args": ga, "loop_phases": phases}
+        ctx.case({"fn": "make_phases_compatible", "delays": delays, "T": T}, bucket="utils:make_phases_compatible")
+        dev = utils_device(phases)
+        try:
+            out = tdmu.make_phases_compatible(copy.deepcopy(ga), dev, delays=list(delays), phi_range=[lo, hi])
+        except Exception as e:
+            ctx.counterexample("make_phases_compatible:raises:" + type(e).__name__, str(e), data)
+            continue
+        need = phases_oracle([ga["loops"][i]["Rgate"] for i in range(3)], phases, delays, lo, hi)
+        for i in range(3):
+            for j in range(T):
+                a, b = ga["loops"][i]["Rgate"][j], float(out["loops"][i]["Rgate"][j])
+                want = (a + PI) % (2 * PI) if j in need[i] else a
+                edge = min(abs(((a + phases[i] * int(j / delays[i]) - (phases[i - 1] * int(j / delays[i - 1]) if i else 0)) % (2 * PI)) - e) for e in
+                           (lo % (2 * PI), hi % (2 * PI), PI)) < 1e-9
+                if abs(b - want) > 1e-12 and not edge:
+                    ctx.counterexample("make_phases_compatible:wrong", "loop %d bin %d: %r -> %r, expected %r (delays %r, range [%r, %r])" % (i, j, a, b, want, delays, lo, hi), data)
+                    break
+        if out["Sgate"] != ga["Sgate"] or any(out["loops"][i]["BSgate"] != ga["loops"][i]["BSgate"] for i in range(3)):
+            ctx.counterexample("make_phases_compatible:touches-other-gates", "squeezing / beamsplitter arguments changed", data)
+    # make_squeezing_compatible directly
+    for _ in range(10):
+        T = rng.randint(2, 10)
+        crop = rng.choice([0, 0, 1, 3])
+        kind = rng.choice(["uniform", "skewed", "trailing-zeros", "too-many", "string", "bad-type"])
+        if kind == "uniform":
+            sq = [0.29] * T
+        elif kind == "skewed":
+            sq = [0.1] * (T // 2 + 1) + [0.5] * (T - T // 2 - 1)
+            rng.shuffle(sq)
+        elif kind == "trailing-zeros":
+            sq = [0.45] * (T - 1) + [0]
+        elif kind == "too-many":
+            sq = [0.33] * T
+            crop = max(crop, 2)
+        elif kind == "string":
+            sq = rng.choice(["zero", "low", "medium", "high"])
+        else:
+            sq = rng.choice([0.3, None, "huge"])
+        ga = {"Sgate": sq, "loops": {0: {"Rgate": [0.0] * T, "BSgate": [0.0] * T}}}
+        if crop or rng.random() < 0.5:
+            ga["crop"] = crop
+        data = {"family": "directutils", "fn": "make_squeezing_compatible", "gate_args": ga}
+        ctx.case({"fn": "make_squeezing_compatible", "kind": kind, "T": T, "crop": crop}, bucket="utils:make_squeezing_compatible:" + kind)
+        dev = utils_device([0, 0, 0])
+        try:
+            out = tdmu.make_squeezing_compatible(copy.deepcopy(ga), dev)
+        except TypeError:
+            if kind != "bad-type":
+                ctx.counterexample("make_squeezing_compatible:raises:TypeError", "valid squeezing argument %r rejected" % (sq,), data)
+            continue
+        except Exception as e:
+            ctx.counterexample("make_squeezing_compatible:raises:" + type(e).__name__, str(e), data)
+            continue
+        if kind == "bad-type":
+            ctx.counterexample("make_squeezing_compatible:accepts-bad-type", "squeezing argument %r accepted" % (sq,), data)
+            continue
+        c = ga.get("crop", 0)
+        want = ([float({**SQ_ALLOWED, "zero": 0}[sq])] * (T - c) + [0.0] * c) if isinstance(sq, str) else squeezing_oracle(sq, T, c, SQ_ALLOWED)
+        if [float(x) for x in out["Sgate"]] != [float(x) for x in want]:
+            ctx.counterexample("make_squeezing_compatible:wrong", "squeezing %r (crop %d) -> %r, expected %r" % (sq, c, list(out["Sgate"]), want), data)
+    # full_compile with non-default delays / phase range (structure only: no device layout for these)
+    for _ in range(6):
+        delays = rng.choice([[1, 2, 3], [2, 3, 5]])
+        lo, hi = rng.choice([(-1.0, 1.0), (-PI / 2, PI / 2)])
+        case = gen_padding_case(rng, delays=list(delays))
+        phases = [round(rng.uniform(-1, 1), 3) for _ in range(3)]
+        ga = gate_args_of(case)
+        ga["Sgate"] = "medium"
+        data = {"family": "directutils", "fn": "full_compile", "case": case, "range": [lo, hi], "loop_phases": phases}
+        ctx.case({"fn": "full_compile-custom", "delays": delays, "L": case["L"]}, bucket="utils:full_compile-custom")
+        try:
+            d = tdmu.full_compile(copy.deepcopy(ga), utils_device(phases), delays=list(delays), phi_range=[lo, hi], return_list=False)
+        except Exception as e:
+            ctx.counterexample("full_compile:raises:" + type(e).__name__, "full_compile(delays=%r, phi_range=%r) raised %s" % (delays, [lo, hi], e), data)
+            continue
+        alphas = [ga["loops"][i]["BSgate"] for i in range(3)]
+        pro, epi, crop = padding_oracle(alphas, delays)
+        padded_r = [[0.0] * pro[i] + [float(x) for x in ga["loops"][i]["Rgate"]] + [0.0] * epi[i] for i in range(3)]
+        need = phases_oracle(padded_r, phases, delays, lo, hi)
+        okk = d.get("crop") == crop and [float(x) for x in d["Sgate"]] == [0.3] * case["L"] + [0.0] * crop
+        for i in range(3):
+            for j in range(len(padded_r[i])):
+                a, b = padded_r[i][j], float(d["loops"][i]["Rgate"][j]) if j < len(d["loops"][i]["Rgate"]) else None
+                want = (a + PI) % (2 * PI) if j in need[i] else a
+                if b is None or abs(b - want) > 1e-12:
+                    x = (a + phases[i] * int(j / delays[i]) - (phases[i - 1] * int(j / delays[i - 1]) if i else 0)) % (2 * PI)
+                    if min(abs(x - lo % (2 * PI)), abs(x - hi % (2 * PI)), abs(x - PI)) > 1e-9:
+                        okk = False
+        if not okk:
+            ctx.counterexample("full_compile:custom-delays-or-range", "full_compile(delays=%r, phi_range=%r) does not pad with these delays / does not shift with this range" % (delays, [lo, hi]), data)
+    # Device.validate_target
+    spec = x_device_spec(rng, 2)
+    ctx.case({"fn": "validate_target"}, bucket="utils:validate_target")
+    try:
+        Device(dict(spec, target="X8_99"))
+        ctx.counterexample("device:target-mismatch-accepted", "Device accepted a specification whose target differs from the layout's target", {"family": "directutils", "fn": "validate_target"})
+    except ValueError:
+        pass
+    # move_vac_modes
+    for shots, T, Nc in [(3, 10, 4), (5, 4, 12), (4, 5, 12), (3, 3, 9)] + [(rng.randint(1, 6), rng.randint(1, 8), rng.randint(1, 14)) for _ in range(6)]:
+        smp = np.arange(1, shots * T + 1).reshape(shots, 1, T)
+        nv = Nc - 1
+        data = {"family": "directutils", "fn": "move_vac_modes", "shape": [shots, 1, T], "N": Nc}
+        ctx.case({"fn": "move_vac_modes", "shape": [shots, 1, T], "N": Nc}, bucket="utils:move_vac_modes")
+        try:
+            flat = np.append(smp.ravel()[nv:], [0] * nv)[:shots * T].reshape(smp.shape) if nv <= shots * T else None
+            out = tdmu.move_vac_modes(smp.copy(), Nc, crop=False)
+            if flat is not None and not np.array_equal(out, flat):
+                ctx.counterexample("move_vac_modes:wrong", "move_vac_modes does not move the first N-1 measured vacuum modes to the end", data)
+            outc = tdmu.move_vac_modes(smp.copy(), [Nc, 1], crop=True)
+            keep = shots - int(math.ceil(nv / T)) if nv else shots
+            if flat is not None and keep >= 0 and not np.array_equal(outc, flat[:keep] if nv else flat):
+                ctx.counterexample("move_vac_modes:crop-count", "move_vac_modes(crop=True) keeps %d of %d shots; %d shots contain no appended vacuum entry (N-1=%d, %d bins per shot)"
+                                   % (len(outc), shots, keep, nv, T), data)
+        except Exception as e:
+            if nv <= shots * T:
+                ctx.counterexample("move_vac_modes:raises:" + type(e).__name__, str(e), data)
+
+
+def search_tdm_utils(ctx):
+    rng = ctx.rng
+    check_small_utils(ctx, rng)
+    check_direct_utils(ctx, rng)
+    # deterministic sweep: every loop, every state pattern, job lengths below / at / above the loop's delay
+    sweep = []
+    for delays in ([2, 3, 5],) if ctx.quick else ([2, 3, 5], [1, 2, 4]):
+        for i, D in enumerate(delays):
+            for kind in LOOP_PATTERNS:
+                for L in sorted({max(1, D - 1), D, D + 1}):
+                    kinds = [rng.choice(["bypass", "cross", "lead-full", "lead-over"]) for _ in delays]
+                    kinds[i] = kind
+                    sweep.append(gen_padding_case(rng, delays=list(delays), L=L, kinds=kinds))
+    for case in sweep:
+        out = check_padding_case(ctx, case)
+        ctx.case({"family": "padding", "delays": case["delays"], "L": case["L"], "kinds": case["kinds"], "outcome": out},
+                 nontrivial=True, bucket="padding:sweep:" + out)
+    # random stream, including the real Borealis delays
+    for _ in range(ctx.budget(25, 150)):
+        case = gen_padding_case(rng)
+        big = case["delays"] == [1, 6, 36]
+        out = check_padding_case(ctx, case, simulate=(not big) or rng.random() < (0.25 if ctx.quick else 0.5))
+        ctx.case({"family": "padding", "delays": case["delays"], "L": case["L"], "kinds": case["kinds"], "outcome": out},
+                 nontrivial=any(k != "bypass" for k in case["kinds"]), bucket="padding:random:" + out)
+    # the real Borealis loops: each loop in the cross state / filled, job shorter / equal / longer than its delay (structure
+    # always, simulation for a sample)
+    for i, D in enumerate(BOREALIS_DELAYS):
+        for kind in ("cross", "lead-full", "lead-short", "single-last"):
+            for L in sorted({max(1, D - 1), D, D + 1}):
+                kinds = ["bypass"] * 3
+                kinds[i] = kind
+                case = gen_padding_case(rng, delays=list(BOREALIS_DELAYS), L=L, kinds=kinds)
+                out = check_padding_case(ctx, case, simulate=(L <= 7) or (not ctx.quick))
+                ctx.case({"family": "padding", "delays": case["delays"], "L": L, "kinds": kinds, "outcome": out}, nontrivial=True, bucket="padding:borealis:" + out)
+    # full_compile and borealis_gbs
+    for it in range(ctx.budget(14, 80)):
+        case = gen_compile_case(rng)
+        out = check_compile_case(ctx, case, simulate=it < ctx.budget(5, 25))
+        ctx.case({"family": "fullcompile", "L": case["L"], "kinds": case["kinds"], "Sgate": case["Sgate"] if isinstance(case["Sgate"], str) else "list",
+                  "outcome": out}, nontrivial=out == "ok", bucket="fullcompile:" + out)
+    for it in range(ctx.budget(3, 12)):
+        case = {"modes": rng.choice([1, 2, 5, 7, 12, 30, 37, 40]), "squeezing": rng.choice(["low", "medium", "high"]),
+                "open_loops": [rng.random() < 0.6 for _ in range(3)], "seed": rng.randrange(2 ** 31),
+                "loop_phases": [round(rng.uniform(-1, 1), 3) for _ in range(3)]}
+        out = check_gbs_case(ctx, case)
+        ctx.case(dict(case, family="gbs", outcome=out), nontrivial=any(case["open_loops"]), bucket="gbs:" + out)
+
+
 # =====================================================================================================
 # search
 
@@ -1021,7 +1801,16 @@ def search(ctx):
         else:
             tags, spec = x_general_program(rng, N)
             compiler = rng.choice(["Xunitary", "Xunitary", "Xcov", "Xstrict"])
-        out = check_x_case(ctx, tags, spec, dev_spec, compiler, K)
+        opts = {}
+        r = rng.random()
+        if r < 0.12 and dev_spec is not None:
+            compiler = None                      # Program.compile(device=...) alone: the device's default compiler
+        elif r < 0.22:
+            opts = {"optimize": True}
+        elif r < 0.27:
+            opts = {"shots": 5}
+        out = check_x_case(ctx, tags, spec, dev_spec, compiler, K, opts)
+        compiler = compiler or "default"
         nontriv = out == "ok" and any(t.startswith(("dup", "zero", "dagger")) or (t.startswith("U:") and t != "U:none") or t.startswith("template") for t in tags)
         ctx.case({"N": N, "compiler": compiler, "tags": tags, "device": None if dev_spec is None else {k: dev_spec[k] for k in ("modes", "compiler")}, "outcome": out,
                   "cmds": [[c[0], c[2], c[3]] for c in spec["cmds"]]}, nontrivial=nontriv, bucket="x:%s:%s" % (compiler, out))
@@ -1034,6 +1823,58 @@ def search(ctx):
                 out = check_x_case(ctx, tags, spec, None, compiler, 2)
                 ctx.case({"N": N, "compiler": compiler, "tags": tags, "device": None, "outcome": out, "cmds": [[c[0], c[2], c[3]] for c in spec["cmds"]]},
                          nontrivial=False, bucket="x-defect:%s:%s:%s" % (compiler, defect, out))
+    # Xstrict as the device's default compiler: the exact template and each perturbation of it, every N
+    for N in (1, 2, 3, 4):
+        for rep_ in range(ctx.budget(6, 14)):
+            dev_spec = x_device_spec(rng, N)
+            dev_spec["compiler"] = ["Xstrict"]
+            dev_spec["modes"] = 2 * N
+            if rep_ % 3 == 0:
+                dev_spec["gate_parameters"] = None
+            if dev_spec["gate_parameters"] is None:
+                dev_spec["gate_parameters"] = None
+            kind, spec = x_template_program(rng, N, dict(dev_spec, gate_parameters=dev_spec["gate_parameters"] or {}))
+            out = check_x_case(ctx, [kind], spec, dev_spec, rng.choice(["Xstrict", None]), 2)
+            ctx.case({"N": N, "compiler": "Xstrict-default", "tags": [kind], "outcome": out}, nontrivial=True, bucket="x-strict-default:%s:%s" % (kind, out))
+    # edge programs: measurement only, one squeezer only, BipartiteGraphEmbed
+    for N in (1, 2, 3):
+        for compiler in ("Xunitary", "Xcov"):
+            n = 2 * N
+            progs = [("meas-only", [["MeasureFock", [], list(range(n)), False]]),
+                     ("one-squeezer", [["S2gate", [0.4, 0.0], [N - 1, 2 * N - 1], False], ["MeasureFock", [], list(range(n)), False]])]
+            if N >= 2:
+                g = nprng(rng)
+                Bm = g.uniform(0.05, 0.4, (N, N))
+                Bm = (Bm + Bm.T) / 2
+                A = np.block([[np.zeros((N, N)), Bm], [Bm.T, np.zeros((N, N))]])
+                progs.append(("bipartite", [["BipartiteGraphEmbed", [mat_to_json(A), 0.5], list(range(n)), False], ["MeasureFock", [], list(range(n)), False]]))
+            for tag, cmds in progs:
+                out = check_x_case(ctx, [tag], {"n": n, "cmds": cmds}, None, compiler, 3)
+                ctx.case({"N": N, "compiler": compiler, "tags": [tag], "outcome": out}, nontrivial=True, bucket="x-edge:%s:%s:%s" % (compiler, tag, out))
+    # Device.create_program
+    for it in range(ctx.budget(10, 40)):
+        N = rng.choice([1, 2, 2, 3])
+        dev_spec = x_device_spec(rng, N)
+        dev_spec["modes"] = 2 * N
+        if dev_spec["gate_parameters"] is None:
+            continue
+        names = sorted(dev_spec["gate_parameters"])
+        params = {}
+        for nm in rng.sample(names, rng.randint(0, len(names))):
+            a = rng.choice(dev_spec["gate_parameters"][nm])
+            params[nm] = float(a) if not isinstance(a, (list, tuple)) else round(rng.uniform(a[0], a[-1]), 3)
+        # the two copies of the interferometer share their phases; keep the final phases of the halves equal (mostly)
+        if rng.random() < 0.85:
+            for i in range(N):
+                a, b = "final_phase_%d" % i, "final_phase_%d" % (i + N)
+                params.pop(b, None)
+                if a in params:
+                    params[b] = params[a]
+        if rng.random() < 0.15 and params:
+            params[rng.choice(sorted(params))] = 99.0
+        out = check_create_program(ctx, dev_spec, params)
+        ctx.case({"family": "create", "N": N, "default": dev_spec["compiler"], "given": len(params), "outcome": out}, nontrivial=out == "ok" and 0 < len(params) < len(names),
+                 bucket="create:%s" % out)
     # borealis
     n_b = ctx.budget(60, 300)
     for it in range(n_b):
@@ -1046,16 +1887,30 @@ def search(ctx):
         case = gen_tdm_case(rng)
         out = check_tdm_case(ctx, case)
         ctx.case({"family": "tdm", "target": case["target"], "T": case["T"], "mut": case["mut"], "outcome": out}, nontrivial=(out != "ok" or case["mut"] == "boundary"), bucket="tdm:" + out)
+    # tdm/utils.py
+    search_tdm_utils(ctx)
 
 
 def run_data(ctx, d):
     fam = d.get("family")
     if fam == "x":
-        return check_x_case(ctx, d.get("tags", []), d["spec"], d["device"], d["compiler"], d.get("K", 3))
+        return check_x_case(ctx, d.get("tags", []), d["spec"], d["device"], d["compiler"], d.get("K", 3), d.get("opts"))
+    if fam == "create":
+        return check_create_program(ctx, d["device"], d["params"])
+    if fam == "utils":
+        return check_small_utils(ctx, random.Random(d.get("seed", 0)))
+    if fam == "directutils":
+        return check_direct_utils(ctx, random.Random(d.get("seed", 0)))
     if fam == "borealis":
         return check_borealis_case(ctx, d["case"], d.get("K", 2))
     if fam == "tdm":
         return check_tdm_case(ctx, d["case"])
+    if fam == "padding":
+        return check_padding_case(ctx, d["case"])
+    if fam == "fullcompile":
+        return check_compile_case(ctx, d["case"])
+    if fam == "gbs":
+        return check_gbs_case(ctx, d["case"])
     if fam == "corr":
         return CORR[d["model"]](ctx, [d["input"]], "replay")
     raise ValueError("unknown replay family %r" % fam)
@@ -1596,3 +2451,4 @@ def correspondence(ctx):
             c = gen_borealis_case(rng)
             cases.append(c)
         corr_borealis(ctx, cases, "r%d" % rep)
+        corr_padding(ctx, [gen_padding_case(rng) for _ in range(ctx.budget(120, 250))], "r%d" % rep)
